@@ -76,6 +76,15 @@ class Cond:
         return repr(self)
 
 
+@dataclass(frozen=True)
+class SymStr:
+    """A string whose characters depend on symbolic values (str(n), an f-string over symbols...)."""
+    text: str
+
+    def __repr__(self):
+        return self.text
+
+
 class Rec:
     """Instance of a repo class (NamedTuple or dataclass or plain)."""
 
@@ -695,6 +704,7 @@ class Interp:
 
     def e_JoinedStr(self, n, env):
         parts = []
+        symbolic = False
         for v in n.values:
             if isinstance(v, ast.Constant):
                 parts.append(str(v.value))
@@ -703,8 +713,19 @@ class Interp:
                     x = self.eval(v.value, env)
                 except (Undecided, PyRaise):
                     x = "?"
-                parts.append(x if isinstance(x, str) else f"{{{x!r}}}")
-        return "".join(parts)
+                spec = ""
+                if v.conversion not in (-1, None):
+                    spec += "!" + chr(v.conversion)
+                if v.format_spec is not None:
+                    spec += ":" + unparse(v.format_spec)
+                if isinstance(x, str) and not spec:
+                    parts.append(x)
+                elif isinstance(x, int) and not isinstance(x, bool) and not spec:
+                    parts.append(str(x))
+                else:
+                    symbolic = True
+                    parts.append(f"{{{x!r}{spec}}}")
+        return SymStr("".join(parts)) if symbolic else "".join(parts)
 
     def e_Lambda(self, n, env):
         return Closure(self._mod(env), n, env)
@@ -760,6 +781,10 @@ class Interp:
             if isinstance(l, Rec) and isinstance(op, ast.Add) and self.is_namedtuple(l.cls) and isinstance(r, tuple):
                 return l.astuple() + r
             raise PyRaise("TypeError", node, "unsupported operand")
+        if isinstance(op, ast.Add) and (isinstance(l, SymStr) or isinstance(r, SymStr)):
+            if isinstance(l, (str, SymStr)) and isinstance(r, (str, SymStr)):
+                return SymStr((l.text if isinstance(l, SymStr) else l) + (r.text if isinstance(r, SymStr) else r))
+            raise PyRaise("TypeError", node, "str + non-str")
         if isinstance(op, ast.Add):
             if isinstance(l, (tuple, list, str)) and type(l) is type(r):
                 return l + r
@@ -892,6 +917,12 @@ class Interp:
 
     def equal(self, l, r):
         """Python == on interpreter values: True/False or a symbolic Cond."""
+        if isinstance(l, SymStr) or isinstance(r, SymStr):
+            if isinstance(l, SymStr) and isinstance(r, SymStr) and l.text == r.text:
+                return True
+            if not isinstance(l, (str, SymStr)) or not isinstance(r, (str, SymStr)):
+                return False
+            return Cond("==", (l, r))
         if isinstance(l, Rec) and self.is_namedtuple(l.cls):
             l = l.astuple()
         if isinstance(r, Rec) and self.is_namedtuple(r.cls):
@@ -935,6 +966,8 @@ class Interp:
     def contains(self, container, item):
         if isinstance(container, Unknown):
             return container
+        if isinstance(container, SymStr) or (isinstance(container, str) and isinstance(item, SymStr)):
+            return Cond("in", (item, container))
         if isinstance(container, str):
             if isinstance(item, str):
                 return item in container
@@ -999,6 +1032,13 @@ class Interp:
             return r
         if isinstance(base, str):
             return PyCallable(lambda it, a, k, b=base, at=attr: _str_method(b, at, a))
+        if isinstance(base, SymStr):
+            def _m(it, a, k, b=base, at=attr):
+                call = f"{b.text}.{at}({', '.join(map(repr, a))})"
+                if at in ("startswith", "endswith", "isdigit", "islower", "isupper"):
+                    return Cond(at, (b,) + tuple(a))
+                return SymStr(call)
+            return PyCallable(_m)
         if isinstance(base, (list, tuple, dict, frozenset)):
             return PyCallable(lambda it, a, k, b=base, at=attr: it.container_method(b, at, a, k))
         if isinstance(base, Unknown):
@@ -1277,7 +1317,9 @@ class Interp:
             x = a[0]
             if isinstance(x, (str, int)):
                 return str(x)
-            return f"{{{x!r}}}"
+            if isinstance(x, SymStr):
+                return x
+            return SymStr(f"{{{x!r}}}")
         if name == "bool":
             return self.decide(a[0])
         if name == "isinstance":
@@ -1466,7 +1508,7 @@ def _h(x):
 
 
 def _has_sym(x):
-    if isinstance(x, (RF, Cond, Unknown)):
+    if isinstance(x, (RF, Cond, Unknown, SymStr)):
         return True
     if isinstance(x, (tuple, list)):
         return any(_has_sym(i) for i in x)
